@@ -232,7 +232,16 @@ def run_history(pcfg, cuts, exact=True, with_queue=True, max_pops=None):
                 'restored': queue_items(q) if with_queue else None}
         cut = cuts[si] if si < len(cuts) else None
         n = 0
+        # a queue that keeps handing out pre-terminals for ever (e.g. the same one again and again) never ends: more pops
+        # than three times the number of pre-terminals of the grammar (+ slack) is recorded as "does not terminate"
+        try:
+            pop_cap = 3 * n_nodes(sizes_of(pcfg)) + 200
+        except Exception:
+            pop_cap = 10 ** 6
         while True:
+            if n > pop_cap:
+                raised = 'the queue did not run empty after %d pops (grammar has %d pre-terminals)' % (n, (pop_cap - 200) // 3)
+                break
             try:
                 it = q.next()
             except Exception as ex:      # the code under test raised while enumerating
